@@ -916,12 +916,23 @@ func (p *parser) function() (Node, error) {
 	return nil, &UnknownFunctionError{name}
 }
 
+// argument parses a function argument that has to be a value. An expression
+// reference is valid syntax in any argument position, but has the wrong type
+// here.
+func (p *parser) argument(name string) (Node, error) {
+	if p.curr.Type == lexer.ExpressionToken {
+		return nil, &InvalidFunctionArgumentError{name, "value"}
+	}
+
+	return p.expression(1)
+}
+
 func (p *parser) function1Arg(name string) (Node, error) {
 	if p.curr.Type == lexer.CloseParenToken {
 		return nil, &InvalidFunctionCallError{name}
 	}
 
-	arg, err := p.expression(1)
+	arg, err := p.argument(name)
 	if err != nil {
 		return nil, err
 	}
@@ -946,7 +957,7 @@ func (p *parser) function1To2Arg(name string) (Node, Node, error) {
 		return nil, nil, &InvalidFunctionCallError{name}
 	}
 
-	arg1, err := p.expression(1)
+	arg1, err := p.argument(name)
 	if err != nil {
 		return nil, nil, err
 	}
@@ -967,7 +978,7 @@ func (p *parser) function1To2Arg(name string) (Node, Node, error) {
 		return nil, nil, err
 	}
 
-	arg2, err := p.expression(1)
+	arg2, err := p.argument(name)
 	if err != nil {
 		return nil, nil, err
 	}
@@ -992,7 +1003,7 @@ func (p *parser) function2Arg(name string) (Node, Node, error) {
 		return nil, nil, &InvalidFunctionCallError{name}
 	}
 
-	arg1, err := p.expression(1)
+	arg1, err := p.argument(name)
 	if err != nil {
 		return nil, nil, err
 	}
@@ -1009,7 +1020,7 @@ func (p *parser) function2Arg(name string) (Node, Node, error) {
 		return nil, nil, err
 	}
 
-	arg2, err := p.expression(1)
+	arg2, err := p.argument(name)
 	if err != nil {
 		return nil, nil, err
 	}
@@ -1034,7 +1045,7 @@ func (p *parser) function2ExpArg(name string) (Node, Node, error) {
 		return nil, nil, &InvalidFunctionCallError{name}
 	}
 
-	arg1, err := p.expression(1)
+	arg1, err := p.argument(name)
 	if err != nil {
 		return nil, nil, err
 	}
@@ -1105,7 +1116,7 @@ func (p *parser) function2MapArg(name string) (Node, Node, error) {
 		return nil, nil, err
 	}
 
-	arg2, err := p.expression(1)
+	arg2, err := p.argument(name)
 	if err != nil {
 		return nil, nil, err
 	}
@@ -1130,7 +1141,7 @@ func (p *parser) function2To3Arg(name string) (Node, Node, Node, error) {
 		return nil, nil, nil, &InvalidFunctionCallError{name}
 	}
 
-	arg1, err := p.expression(1)
+	arg1, err := p.argument(name)
 	if err != nil {
 		return nil, nil, nil, err
 	}
@@ -1147,7 +1158,7 @@ func (p *parser) function2To3Arg(name string) (Node, Node, Node, error) {
 		return nil, nil, nil, err
 	}
 
-	arg2, err := p.expression(1)
+	arg2, err := p.argument(name)
 	if err != nil {
 		return nil, nil, nil, err
 	}
@@ -1168,7 +1179,7 @@ func (p *parser) function2To3Arg(name string) (Node, Node, Node, error) {
 		return nil, nil, nil, err
 	}
 
-	arg3, err := p.expression(1)
+	arg3, err := p.argument(name)
 	if err != nil {
 		return nil, nil, nil, err
 	}
@@ -1193,7 +1204,7 @@ func (p *parser) function2To4Arg(name string) (Node, Node, Node, Node, error) {
 		return nil, nil, nil, nil, &InvalidFunctionCallError{name}
 	}
 
-	arg1, err := p.expression(1)
+	arg1, err := p.argument(name)
 	if err != nil {
 		return nil, nil, nil, nil, err
 	}
@@ -1210,7 +1221,7 @@ func (p *parser) function2To4Arg(name string) (Node, Node, Node, Node, error) {
 		return nil, nil, nil, nil, err
 	}
 
-	arg2, err := p.expression(1)
+	arg2, err := p.argument(name)
 	if err != nil {
 		return nil, nil, nil, nil, err
 	}
@@ -1231,7 +1242,7 @@ func (p *parser) function2To4Arg(name string) (Node, Node, Node, Node, error) {
 		return nil, nil, nil, nil, err
 	}
 
-	arg3, err := p.expression(1)
+	arg3, err := p.argument(name)
 	if err != nil {
 		return nil, nil, nil, nil, err
 	}
@@ -1252,7 +1263,7 @@ func (p *parser) function2To4Arg(name string) (Node, Node, Node, Node, error) {
 		return nil, nil, nil, nil, err
 	}
 
-	arg4, err := p.expression(1)
+	arg4, err := p.argument(name)
 	if err != nil {
 		return nil, nil, nil, nil, err
 	}
@@ -1277,7 +1288,7 @@ func (p *parser) function3To4Arg(name string) (Node, Node, Node, Node, error) {
 		return nil, nil, nil, nil, &InvalidFunctionCallError{name}
 	}
 
-	arg1, err := p.expression(1)
+	arg1, err := p.argument(name)
 	if err != nil {
 		return nil, nil, nil, nil, err
 	}
@@ -1294,7 +1305,7 @@ func (p *parser) function3To4Arg(name string) (Node, Node, Node, Node, error) {
 		return nil, nil, nil, nil, err
 	}
 
-	arg2, err := p.expression(1)
+	arg2, err := p.argument(name)
 	if err != nil {
 		return nil, nil, nil, nil, err
 	}
@@ -1311,7 +1322,7 @@ func (p *parser) function3To4Arg(name string) (Node, Node, Node, Node, error) {
 		return nil, nil, nil, nil, err
 	}
 
-	arg3, err := p.expression(1)
+	arg3, err := p.argument(name)
 	if err != nil {
 		return nil, nil, nil, nil, err
 	}
@@ -1332,7 +1343,7 @@ func (p *parser) function3To4Arg(name string) (Node, Node, Node, Node, error) {
 		return nil, nil, nil, nil, err
 	}
 
-	arg4, err := p.expression(1)
+	arg4, err := p.argument(name)
 	if err != nil {
 		return nil, nil, nil, nil, err
 	}
@@ -1359,7 +1370,7 @@ func (p *parser) functionVarArg(name string) ([]Node, error) {
 
 	var nodes []Node
 	for {
-		node, err := p.expression(1)
+		node, err := p.argument(name)
 		if err != nil {
 			return nil, err
 		}
